@@ -8,7 +8,7 @@
 //
 //	disagreement  implementation != model under -dev                                 (the tie)
 //	violation     a panic leaves NewPlan/Execute, the worker dies or hangs;            (a)
-//	              two runs on equal roots differ;                                      (b)
+//	              two runs of one *Plan, a fresh plan, or any of 7 further repetitions differ; (b)
 //	              the plan rebuilt from String() behaves differently;                  (c)
 //	              $.src (whole subtree, before/after) changed although the plan calls no  (d)
 //	              set/setall/del/delall, or only ones that target places outside $.src
@@ -260,9 +260,9 @@ func buildCases() []kase {
 	rep.Exhaustive = append(rep.Exhaustive, fmt.Sprintf("equal and neq on every ordered pair of %d maps/lists with null members, absent keys and near-miss key sets (same size, one key renamed), as literals and (a third of the pairs) fetched by path: %d plans", len(ev), neq))
 
 	r := lib.NewRng(*seed)
-	nModel, nAll, nEnum, nMal, nTriple, nFrame := 9000, 5000, 1500, 1500, 2500, 4000
+	nModel, nAll, nEnum, nMal, nTriple, nFrame, nObs := 9000, 5000, 1500, 1500, 2500, 4000, 4000
 	if full {
-		nModel, nAll, nEnum, nMal, nTriple, nFrame = 160000, 90000, 20000, 25000, 40000, 60000
+		nModel, nAll, nEnum, nMal, nTriple, nFrame, nObs = 160000, 90000, 20000, 25000, 40000, 60000, 50000
 	}
 	// frame: mutator-free plans that hand data under $.src by reference to every function in turn
 	{
@@ -279,6 +279,17 @@ func buildCases() []kase {
 				f = gf.pick([]string{"sort", "reverse", "append", "each", "join", "include", "nth", "list", "equal", "getall", "string", "cond", "asm"})
 			}
 			emit(kase{stream: "frame", plan: render(gf.framePlan(f)), root: render(gf.frameRoot())})
+		}
+		// obs: the same calls with their value stored, on roots whose maps have 3-6 members inside lists and
+		// nested lists: the value must be the same on every one of the repeated executions
+		gobs := &gen{r: r.Fork(7), fns: pool, alias: true, sloppy: 10}
+		for i := 0; i < nObs; i++ {
+			f := pool[i%len(pool)]
+			root := gobs.obsRoot()
+			if i%4 == 0 {
+				root = gobs.frameRoot()
+			}
+			emit(kase{stream: "obs", plan: render(gobs.obsPlan(f)), root: render(root)})
 		}
 	}
 	// three-argument literal calls (random sample of the box's continuation)
@@ -594,6 +605,13 @@ func judge(d *lib.Driver, k *kase, w WOut, v verdicts) {
 	}
 	// (b) the same result on every run
 	enumer := enumerates(mustTree(k.plan)) || hasStop(v.cur, "enum")
+	if r.Repeat != "" && impl1 == impl2 && impl1 == fresh {
+		if enumer {
+			addKnown(k, idMapOrder, "rerun:map-order", "repeated runs differ; the plan enumerates a map (Go map iteration order)")
+		} else {
+			violation(k, "nondeterministic:"+base, "repeated executions of the plan on equal roots differ", map[string]any{"first": fresh, "another": canonFloats(r.Repeat)})
+		}
+	}
 	if impl1 != impl2 || impl1 != fresh {
 		switch {
 		case curOK && canonFloats(v.cur) == implRuns && impl1 == fresh && modelled1(v.ideal) && sameRuns(v.ideal) && strings.ContainsAny(*dev, "la"):
